@@ -122,6 +122,7 @@ class DeclarativeCircuit(IDeclarativeCircuit):
         )
         result._structure = self._structure.apply_modifiers_to_self()
         result._added_operations = self._added_operations
+        result._acquisition_registry = self._acquisition_registry
         return result
 
     def flatten(self) -> 'DeclarativeCircuit':
@@ -136,6 +137,7 @@ class DeclarativeCircuit(IDeclarativeCircuit):
         )
         result._structure = self._structure.apply_flatten_to_self()
         result._added_operations = self._added_operations
+        result._acquisition_registry = self._acquisition_registry
         return result
 
     def set_qubit_initial_state(self, channel_index: int, state: InitialStateEnum) -> 'DeclarativeCircuit':
